@@ -21,7 +21,8 @@ maximum any route needs on the valid corpus) inside the per-case wall-clock watc
 
 Workloads: every prefix of every valid corpus document (hand-written documents of every block structure + seeded
 generated ones); single and double edits (char / token delete, insert, replace, duplicate, swap, dropped span or line,
-inserted keyword); random token strings per format; directed witnesses of every mechanism found (always run first);
+inserted keyword); random token strings per format; a quarter of the edited / random Newick and NEXUS inputs are read
+with one documented reader option switched (KWVAR); directed witnesses of every mechanism found (always run first);
 nesting-depth / comment-run stress as a separate directed class.
 
 Soundness limits: inputs are small (<= 2 KB); outside the directed depth class generated inputs have <= 120 tokens, so
@@ -113,6 +114,7 @@ DIRECTED = [
     ("nexus", NX + "BEGIN DATA; DIMENSIONS NTAX=1 NCHAR=2; FORMAT DATATYPE=CONTINUOUS; MATRIX a 1.0; END;\n", None, "continuous"),
     # --- MATRIX without FORMAT (default data type), duplicate SYMBOLS
     ("nexus", NX + "BEGIN DATA; DIMENSIONS NTAX=1 NCHAR=2; MATRIX a 01; END;\n", None, "standard"),
+    ("nexus", NX + "BEGIN DATA; DIMENSIONS NTAX=1 NCHAR=2; MATRIX a (01)1; END;\n", None, "standard"),
     ("nexus", NX + "BEGIN DATA; DIMENSIONS NTAX=1 NCHAR=2; FORMAT DATATYPE=STANDARD SYMBOLS=\"11\"; MATRIX a 11; END;\n", None, "standard"),
     ("nexus", NX + "BEGIN DATA; DIMENSIONS NTAX=1 NCHAR=2; FORMAT DATATYPE=STANDARD SYMBOLS=\"\"; MATRIX a 11; END;\n", None, "standard"),
     ("nexus", NX + "BEGIN DATA; DIMENSIONS NTAX=1 NCHAR=2; FORMAT DATATYPE=STANDARD SYMBOLS=\"1?\"; MATRIX a 11; END;\n", None, "standard"),
@@ -125,16 +127,17 @@ DIRECTED = [
     ("phylip", "2 4\na ACGT\nb AC\n", {}, "dna"),
     ("phylip", "2 2\na ACG\nb AC\n", {}, "dna"),
     ("phylip", "2 2\na ACG\nb AC\n", {"interleaved": True}, "dna"),
+    ("phylip", "2 2\na         AC\nb         G\nTT\n", {"strict": True, "interleaved": True}, "dna"),
+    # --- PHYLIP repeated label
     ("phylip", "2 4\na ACGT\na ACGT\nb ACGT\n", {}, "dna"),
     # --- jplace edge numbers (reader option)
     ("newick", "(a{x},b);", {"is_parse_jplace_tokens": True}, None),
     # --- tree weight comment with a zero denominator (reader option)
     ("newick", "[&W 1/0] (a,b);", {"store_tree_weights": True}, None),
     ("nexus", NX + "BEGIN TREES; TREE t = [&W 1/0] (a,b); END;\n", {"store_tree_weights": True}, None),
-    ("phylip", "2 2\na         AC\nb         G\nTT\n", {"strict": True, "interleaved": True}, "dna"),
 ]
 
-# documented reader options applied to a quarter of the edited / random inputs (the valid corpus parses under each of them)
+# documented reader options, one of which is applied to a quarter of the edited / random inputs
 KWVAR = {"newick": [{"suppress_internal_node_taxa": False}, {"terminating_semicolon_required": False}, {"preserve_underscores": True},
                     {"suppress_leaf_node_taxa": True}, {"rooting": "force-rooted"}, {"store_tree_weights": True},
                     {"extract_comment_metadata": False}, {"suppress_edge_lengths": True}, {"is_parse_jplace_tokens": True}],
